@@ -162,7 +162,9 @@ func (c *conn) handleSubscribe(in *inEnvelope) error {
 
 	initial := true
 	c.subscriptionLogger.Subscribe(c.ctx, id, tags)
-	c.subscriptions[id] = reactive.NewRerunner(c.ctx, func(ctx context.Context) (interface{}, error) {
+	// runner is written and read under c.mu only.
+	var runner *reactive.Rerunner
+	runner = reactive.NewRerunner(c.ctx, func(ctx context.Context) (interface{}, error) {
 		ctx = c.makeCtx(ctx)
 		ctx = batch.WithBatching(ctx)
 
@@ -197,7 +199,7 @@ func (c *conn) handleSubscribe(in *inEnvelope) error {
 		if err != nil {
 			if ErrorCause(err) == context.Canceled {
 				verifConn("run.fail", id, &initial)
-				go c.closeSubscription(id)
+				go c.closeSubscriptionOf(id, &runner, &initial)
 				return nil, err
 			}
 
@@ -224,7 +226,7 @@ func (c *conn) handleSubscribe(in *inEnvelope) error {
 				Metadata: output.Metadata,
 			})
 			verifConn("run.fail", id, &initial)
-			go c.closeSubscription(id)
+			go c.closeSubscriptionOf(id, &runner, &initial)
 
 			if _, ok := err.(SanitizedError); !ok {
 				c.logger.Error(ctx, err, tags)
@@ -256,6 +258,7 @@ func (c *conn) handleSubscribe(in *inEnvelope) error {
 		initial = false
 		return nil, nil
 	}, c.minRerunIntervalFunc(c.ctx, query), c.alwaysSpawnGoroutineFunc(c.ctx, query))
+	c.subscriptions[id] = runner
 	verifConn("sub.accept", id, &initial)
 
 	return nil
@@ -298,7 +301,9 @@ func (c *conn) handleMutate(in *inEnvelope) error {
 
 	initial := true
 	e := c.executor
-	c.subscriptions[id] = reactive.NewRerunner(c.ctx, func(ctx context.Context) (interface{}, error) {
+	// runner is written and read under c.mu only.
+	var runner *reactive.Rerunner
+	runner = reactive.NewRerunner(c.ctx, func(ctx context.Context) (interface{}, error) {
 		// Serialize all mutates for a given connection.
 		c.mutateMu.Lock()
 		defer c.mutateMu.Unlock()
@@ -342,7 +347,7 @@ func (c *conn) handleMutate(in *inEnvelope) error {
 			})
 
 			verifConn("run.fail", id, &initial)
-			go c.closeSubscription(id)
+			go c.closeSubscriptionOf(id, &runner, &initial)
 
 			if ErrorCause(err) == context.Canceled {
 				return nil, err
@@ -365,9 +370,10 @@ func (c *conn) handleMutate(in *inEnvelope) error {
 
 		verifConn("run.ok", id, &initial)
 		initial = false
-		go c.closeSubscription(id)
+		go c.closeSubscriptionOf(id, &runner, &initial)
 		return nil, errors.New("stop")
 	}, c.minRerunIntervalFunc(c.ctx, query), c.alwaysSpawnGoroutineFunc(c.ctx, query))
+	c.subscriptions[id] = runner
 	verifConn("mut.accept", id, &initial)
 
 	return nil
@@ -393,6 +399,23 @@ func (c *conn) closeSubscription(id string) {
 		verifConn("close.found", id, nil)
 	} else {
 		verifConn("close.miss", id, nil)
+	}
+}
+
+// closeSubscriptionOf ends the subscription (or mutation) id on behalf of its
+// own rerunner, which has failed or is done. If the id has meanwhile been
+// unsubscribed and reused, the newer subscription is left alone.
+func (c *conn) closeSubscriptionOf(id string, runner **reactive.Rerunner, key interface{}) {
+	c.mu.Lock()
+	defer c.mu.Unlock()
+
+	if current, ok := c.subscriptions[id]; ok && current == *runner {
+		current.Stop()
+		delete(c.subscriptions, id)
+		c.subscriptionLogger.Unsubscribe(c.ctx, id)
+		verifConn("close.deferred.found", id, key)
+	} else {
+		verifConn("close.deferred.miss", id, key)
 	}
 }
 
